@@ -274,6 +274,7 @@ def fixed(ctx):
     kinds = ['pass', 'fail_out', 'fail_exc', 'fail_last', 'all_skipped', 'req_unmet', 'inline_skipped_after_directive',
              'req_after_directive', 'partly', 'expected_exc', 'comment_only', 'fail_warn', 'pass_warn', 'fail_directive_first',
              'disabled_lc', 'disabled_lc', 'disabled', 'disabled', 'disabled', 'disabled', 'disabled', 'needs_ellipsis', 'needs_nw', 'needs_iw']
+    kinds += [k for k in outcomes.BASE_KINDS if k not in kinds]
     funcs = []
     for i, k in enumerate(kinds):
         funcs.append({'name': 'f{}'.format(i), 'layout': 'google' if i % 3 else 'bare', 'in_class': i % 4 == 3,
